@@ -5,7 +5,9 @@ props = [json.loads(l) for l in open('/verif/properties.jsonl')]
 TECH = "Rocq/Coq proof over hand-written model + vm_compute correspondence check"
 import glob, os
 CLAIMS = {}
+READY = open('/verif/claims/READY').read().split()   # ids whose check the lead has verified
 for f in sorted(glob.glob('/verif/claims/C*.json')):
+    if os.path.basename(f)[:-5] not in READY: continue
     d = json.load(open(f)); CLAIMS[os.path.basename(f)[:-5]] = (d['text'], d['note'])
 checks = []
 for p in props:
